@@ -175,6 +175,7 @@ func sampleTxs() []*mTx {
 		{},
 		{nonce: 1, chainID: 2, gasLimit: 3, gasPrice: 4, code: pattern(1, 0x51), sigs: []mSig{single(1, 0x10)}},
 		{nonce: math.MaxUint32, chainID: math.MaxUint64, code: pattern(0xFD, 0x51), sigs: []mSig{single(1, 0x10), multi(0x30)}},
+		{nonce: 9, gasLimit: 0xFD, code: pattern(8, 0x61)}, // small (payload <= 128 bytes) but with zero-copy content
 	}
 }
 
@@ -329,7 +330,7 @@ func instances(thorough bool) []instance {
 		in := add(pc.TX_TYPE, fmt.Sprintf("sample=%d", i), &mt.Trn{Txn: decodeTx(tm)}, refTx(tm))
 		in.equal = func(got mt.Message) bool {
 			g, ok := got.(*mt.Trn)
-			return ok && g.Txn != nil && txEqual(g.Txn, tm) && g.Txn.Hash() == dsha(refTxUnsigned(tm))
+			return ok && g.Txn != nil && txEqual(g.Txn, tm) && g.Txn.Hash() == dsha(refTxUnsigned(tm)) && bytes.Equal(g.Txn.Raw, refTx(tm).b)
 		}
 	}
 	// block: 0..3 transactions, with and without the trailing merkle root value
@@ -356,7 +357,7 @@ func instances(thorough bool) []instance {
 					return false
 				}
 				for i := range sel {
-					if !txEqual(g.Blk.Transactions[i], sel[i]) {
+					if !txEqual(g.Blk.Transactions[i], sel[i]) || !bytes.Equal(g.Blk.Transactions[i].Raw, refTx(sel[i]).b) {
 						return false
 					}
 				}
@@ -369,6 +370,7 @@ func instances(thorough bool) []instance {
 		{owner: 1},
 		{version: 1, height: 2, ts: 3, bk: 4, prev: h32(5), data: pattern(1, 6), owner: 2, sig: pattern(65, 7)},
 		{version: math.MaxUint32, height: math.MaxUint32, ts: math.MaxUint32, bk: 0xFFFF, prev: h32(0xFF), data: pattern(0xFD, 6), owner: 3, sig: pattern(0xFD, 7)},
+		{version: 1, height: 2, ts: 3, bk: 4, prev: h32(5), data: pattern(4, 6), owner: 2, sig: pattern(16, 7)}, // small (payload <= 128 bytes)
 	} {
 		c := c
 		m := &mt.Consensus{Cons: mt.ConsensusPayload{Version: c.version, PrevHash: c.prev, Height: c.height, BookkeeperIndex: c.bk, Timestamp: c.ts,
@@ -499,6 +501,205 @@ func checkRoundTrips(r *ev.Run) {
 	}
 	r.Note("message_kinds", len(allCmds))
 	r.Note("instances", len(insts))
+}
+
+// ---------------------------------------------------------------------------------------------
+// multi-frame dimension: several frames written back to back into ONE stream, all read while the decoded messages are
+// retained, and only after the last read every retained message is compared with what was sent. Then each retained
+// message's byte slices are overwritten in turn: no other retained message may change (no shared buffers).
+
+const smallPayload = 128
+
+func sameAsSent(in *instance, got mt.Message) bool {
+	if got == nil || got.CmdType() != in.cmd {
+		return false
+	}
+	if in.limited {
+		return limitedOK(*in, got)
+	}
+	eq := false
+	if in.equal != nil {
+		eq = in.equal(got)
+	} else {
+		eq = reflect.DeepEqual(got, in.msg)
+	}
+	back, err := payloadOf(got)
+	return eq && err == nil && bytes.Equal(back, in.e.b)
+}
+
+// scribble inverts every reachable, settable byte of the []byte values of a decoded message (poly-owned types only).
+func scribble(v reflect.Value, depth int) int {
+	if depth > 12 || !v.IsValid() {
+		return 0
+	}
+	own := func(t reflect.Type) bool {
+		for t.Kind() == reflect.Ptr || t.Kind() == reflect.Slice || t.Kind() == reflect.Array {
+			t = t.Elem()
+		}
+		return t.PkgPath() == "" || strings.Contains(t.PkgPath(), "polynetwork/poly")
+	}
+	n := 0
+	switch v.Kind() {
+	case reflect.Ptr, reflect.Interface:
+		if v.IsNil() || !own(v.Elem().Type()) {
+			return 0
+		}
+		return scribble(v.Elem(), depth+1)
+	case reflect.Struct:
+		for i := 0; i < v.NumField(); i++ {
+			if v.Type().Field(i).PkgPath == "" { // exported only
+				n += scribble(v.Field(i), depth+1)
+			}
+		}
+	case reflect.Slice:
+		if v.Type().Elem().Kind() == reflect.Uint8 {
+			for i := 0; i < v.Len(); i++ {
+				if e := v.Index(i); e.CanSet() {
+					e.SetUint(e.Uint() ^ 0xFF)
+					n++
+				}
+			}
+			return n
+		}
+		if !own(v.Type()) {
+			return 0
+		}
+		for i := 0; i < v.Len(); i++ {
+			n += scribble(v.Index(i), depth+1)
+		}
+	}
+	return n
+}
+
+func checkTuple(r *ev.Run, tuple []*instance) {
+	r.Eval()
+	labels := make([]string, len(tuple))
+	for i, in := range tuple {
+		labels[i] = in.label
+	}
+	desc := map[string]any{"frames": labels}
+	sink := common.NewZeroCopySink(nil)
+	for _, in := range tuple {
+		if err := mt.WriteMessage(sink, in.msg); err != nil {
+			desc["err"] = err.Error()
+			r.Violation("multi-frame:WriteMessage-failed:"+in.cmd, desc)
+			return
+		}
+	}
+	var want []byte
+	for _, in := range tuple {
+		want = append(want, refFrame(in.cmd, in.e.b)...)
+	}
+	stream := append([]byte{}, sink.Bytes()...)
+	if !bytes.Equal(stream, want) {
+		r.Violation("multi-frame:stream-differs-from-reference-frames", desc)
+		return
+	}
+	rd := bytes.NewReader(stream)
+	got := make([]mt.Message, len(tuple))
+	for i := range tuple {
+		var err error
+		if pv, p := ev.Guard(func() { got[i], _, err = mt.ReadMessage(rd) }); p || err != nil {
+			desc["frame"], desc["err"], desc["panic"] = i, fmt.Sprint(err), fmt.Sprint(pv)
+			r.Violation("multi-frame:frame-rejected:"+tuple[i].cmd, desc)
+			return
+		}
+	}
+	if rd.Len() != 0 {
+		r.Violation("multi-frame:stream-not-consumed", desc)
+	}
+	// the stream and the writer's buffer are no longer needed by anybody: overwrite them
+	for i := range stream {
+		stream[i] ^= 0xFF
+	}
+	for _, b := range [][]byte{sink.Bytes()} {
+		for i := range b {
+			b[i] ^= 0xFF
+		}
+	}
+	ok := true
+	for i, in := range tuple {
+		if !sameAsSent(in, got[i]) {
+			ok = false
+			desc["changed_frame"] = i
+			r.Violation("multi-frame:retained-message-changed-by-later-reads:"+in.cmd, desc)
+		}
+	}
+	if !ok {
+		return
+	}
+	// overwrite the byte slices of one retained message at a time; the others must not notice
+	for j := len(tuple) - 1; j >= 0; j-- {
+		if scribble(reflect.ValueOf(got[j]), 0) == 0 {
+			continue
+		}
+		for i, in := range tuple {
+			if i != j && got[i] != nil && !sameAsSent(in, got[i]) {
+				desc["overwritten_frame"], desc["changed_frame"] = j, i
+				r.Violation("multi-frame:retained-messages-share-memory:"+in.cmd, desc)
+				return
+			}
+		}
+		got[j] = nil // its content is destroyed now
+	}
+	r.Class("multiframe_ok")
+}
+
+func checkMultiFrame(r *ev.Run) {
+	insts := instances(r.Thorough())
+	// (1) every ordered pair of all instances
+	pairs := 0
+	for i := range insts {
+		for j := range insts {
+			if r.Expired() {
+				r.Capped("multi-frame pairs")
+				return
+			}
+			checkTuple(r, []*instance{&insts[i], &insts[j]})
+			pairs++
+		}
+	}
+	// (2) every ordered triple over a per-kind selection: the richest instance with a payload <= 128 bytes and the
+	// smallest one above, of every kind that has them
+	var sel []*instance
+	for _, k := range allCmds {
+		var small, large *instance
+		for i := range insts {
+			in := &insts[i]
+			if in.cmd != k || in.limited {
+				continue
+			}
+			if n := len(in.e.b); n <= smallPayload {
+				if small == nil || n >= len(small.e.b) {
+					small = in
+				}
+			} else if large == nil || n < len(large.e.b) {
+				large = in
+			}
+		}
+		for _, x := range []*instance{small, large} {
+			if x != nil {
+				sel = append(sel, x)
+				r.Case("multi-frame member " + x.label)
+			}
+		}
+	}
+	triples := 0
+	for _, a := range sel {
+		for _, b := range sel {
+			for _, c := range sel {
+				if r.Expired() {
+					r.Capped("multi-frame triples")
+					return
+				}
+				checkTuple(r, []*instance{a, b, c})
+				triples++
+			}
+		}
+	}
+	r.Note("multi_frame_pairs", pairs)
+	r.Note("multi_frame_triples", triples)
+	r.Note("multi_frame_triple_members", len(sel))
 }
 
 func limitedOK(in instance, got mt.Message) bool {
@@ -691,16 +892,17 @@ func main() {
 	}
 	r := ev.Start("C05", "exploration")
 	checkRoundTrips(r)
+	checkMultiFrame(r)
 	cov := runMutations(r, spec)
 	r.Assume("a corrupted command field may legitimately select a different known kind (the command is outside the checksum); counted as cmd_alias, not flagged",
 		"a list longer than MAX_ADDR_NODE_CNT / MAX_INV_BLK_CNT is not a well-formed message: the decoder may cut it to the limit or reject it, but must not deliver more",
 		"payload-level garbage is delivered behind a valid header (correct magic, length, checksum) because only such payloads reach the per-kind decoders",
 		"signature / key bytes are fixed patterns and real P-256 points; nothing is verified by the codec")
-	cov["rule"] = "16 kinds, boundary field alphabets, lists 0/1/MAX/MAX+1, real tx/header/block payloads: WriteMessage == reference frame, ReadMessage field-equal, single and back-to-back; " +
+	cov["rule"] = "16 kinds, boundary field alphabets, lists 0/1/MAX/MAX+1, real tx/header/block payloads: WriteMessage == reference frame, ReadMessage field-equal, single and back-to-back; multi-frame: every ordered pair of all instances and every ordered triple over a per-kind selection (richest payload <=128 bytes, smallest payload >128 bytes) written into one stream, all read, messages retained and compared only after the last read, then byte slices of each retained message overwritten in turn (no shared memory); " +
 		"mutations in child processes (ulimit -v 4000000) on 22 representative payloads (thorough: every instance with a payload of at most 1024 bytes): frame level = every truncation, every byte x 3 values, 7 length values, 5 checksum values, 7 magics, 9 unknown commands, 15 other commands, " +
 		"1 real MAX+1-byte payload; payload level (valid header) = every truncation, every byte x 4 values, every count/length prefix x blown-up values, every prefix pair x 3x3"
 	if r.NViolations() == 0 { // vacuity guard; a run that already found violations reports those (exit 1), not exit 2
-		r.Require("roundtrip_ok", "over_limit_list_cut_to_limit", "mutant_accepted", "mutant_clean_error")
+		r.Require("roundtrip_ok", "multiframe_ok", "over_limit_list_cut_to_limit", "mutant_accepted", "mutant_clean_error")
 	}
 	r.Finish(cov)
 }
